@@ -3,6 +3,7 @@ package h
 import (
 	"encoding/json"
 	"fmt"
+	"sort"
 	"strings"
 	"testing"
 
@@ -249,7 +250,8 @@ func TestC09Seq(t *testing.T) {
 		MultiHandle: true, Purge: 2, Reopen: 1, Sync: 3, FeedsMax: 1, Backfill: 12,
 		// checkpointed dump feeds, resumed or started from an explicit CAS: what an earlier run of the
 		// same feed ID persisted must not take documents away from a backfill that names its start
-		Extra: []ExtraAction{{Name: "CpDump", Weight: 2, Gen: genCpDump}},
+		// and live feeds that start with a backfill from 0 or a named CAS in the middle of a history
+		Extra: []ExtraAction{{Name: "CpDump", Weight: 2, Gen: genCpDump}, {Name: "StartFeed", Weight: 2, Gen: genStartFeed}, {Name: "StopFeed", Weight: 1, Gen: genStopFeed}},
 	}
 	seqProperty(t, "C09", "TestC09Seq", pr, 1500,
 		"rapid histories over all entry points followed / interleaved by dump feeds from generated start CAS values (0, a document's CAS, one above, one below, max); the events between the markers are compared with the model (one per key with CAS >= start, CAS order, every field) and with the datatype learnt from the live event of the same version; non-trivial = a backfill whose start CAS cuts strictly inside the history and whose collection holds at least one tombstone with xattrs or one document with an expiry; distinct by <op, prior class, CAS class, outcome> sequence",
@@ -289,6 +291,9 @@ func (r *Run) GetSubDocStep(op Op) {
 	p := r.W.Model.Get(op.C, op.Key)
 	tr.Prior = p.Class()
 	val, cas, err := r.W.Coll(op.H, op.C).GetSubDocRaw(ctx, op.Key, op.Path)
+	if err == nil {
+		r.hold("GetSubDocRaw", op.Key+" "+op.Path, "C18", val)
+	}
 	cls := errClass(err)
 	fail := func(f string, a ...any) {
 		tr.Outcome = "DEVIATION"
@@ -353,6 +358,26 @@ func (r *Run) GetSubDocStep(op Op) {
 	}
 	if cas != p.Cas {
 		fail("returned CAS %#x, the document's CAS is %#x", cas, p.Cas)
+	}
+	// a caller reads several properties and looks at them afterwards: up to two further top-level
+	// properties of the same document (the results are kept and compared again after later calls)
+	names := make([]string, 0, len(cur))
+	for n, v := range cur {
+		if v != nil && n != "" && subdocPathOK(n) && !strings.Contains(n, ".") {
+			names = append(names, n)
+		}
+	}
+	sort.Strings(names)
+	for i, n := range names {
+		if i >= 2 {
+			break
+		}
+		v2, _, err2 := r.W.Coll(op.H, op.C).GetSubDocRaw(ctx, op.Key, n)
+		if err2 != nil || !jsonEqual(v2, mustJSON(cur[n])) {
+			fail("a further read of property %q returned %s (err %v), the property is %s", n, v2, err2, mustJSON(cur[n]))
+			continue
+		}
+		r.hold("GetSubDocRaw", op.Key+" "+n, "C18", v2)
 	}
 }
 
